@@ -31,6 +31,7 @@ theorem sw_applyAct (c : Conn) (v : Verb) (n : Nat) (a : Act) : SameSw c (c.appl
   | stall => exact ⟨rfl, rfl, rfl⟩
   | garbage => exact ⟨rfl, rfl, rfl⟩
   | tlsBad => exact ⟨rfl, rfl, rfl⟩
+  | deaf => exact (sw_replied c v n _ _).trans ⟨rfl, rfl, rfl⟩
 
 theorem sw_serverTurn (c : Conn) (v : Verb) (n : Nat) : SameSw c (c.serverTurn v n).1 := by
   unfold Conn.serverTurn
